@@ -41,6 +41,9 @@ def transforms(ego):
 
 
 def ego2map_matrix(ego):
+    """ego = (x, y, yaw) or (x, y, z, yaw, pitch, roll)."""
+    if len(ego) == 6:
+        return HomogeneousMatrix((ego[0], ego[1], ego[2]), Quaternion(geom.quat_from_ypr(ego[3], ego[4], ego[5])), FrameID.BASE_LINK, FrameID.MAP)
     return HomogeneousMatrix((ego[0], ego[1], 0.0), Quaternion(axis=[0, 0, 1], angle=ego[2]), FrameID.BASE_LINK, FrameID.MAP)
 
 
